@@ -78,7 +78,7 @@ class Cfg:
         return "cfg %s %s" % (cid, " ".join("%s=%s" % x for x in kv.items()))
 
 
-CFG_PATH = R + "/etc/klunok.lua"
+CFG_PATH = R + "/w/cfg/klunok.lua"
 WATCH = R + "/w"
 CPL = len(WATCH) + 1
 
@@ -349,3 +349,98 @@ def gen_world_case(rng, nsteps=None, allow_reload=True, allow_restart=True, dump
     s.timeout()
     s.dump()
     return s.text()
+
+
+# ------------------------------------------------------------ scenario families
+# each scenario: dict(name, pre=[lines], ops=[handler op lines under test], post=[lines])
+
+def _pre(cfg=None, log=True):
+    s = Script(log=log)
+    cfg = setup_world(s, cfg or base_cfg(deb=0))
+    return s, cfg
+
+
+POST_FAULT = ["dump", "stop", "start @CFG@", "tick 9", "timeout", "dump", "timeout", "dump"]
+POST_CRASH = ["start @CFG@", "dump", "tick 9", "timeout", "dump", "timeout", "dump"]
+
+
+def scenarios(tier="quick"):
+    out = []
+
+    def add(name, s, ops, nontrivial=True):
+        start = "start %s %d %s" % (s.cfgid, CPL, hexs(CFG_PATH))
+        out.append({"name": name, "pre": list(s.lines) + ["dump"], "ops": ops, "start": start})
+
+    A, B, Hh = WATCH + "/inc/a.txt", WATCH + "/inc/b.txt", WATCH + "/hist.log"
+    P1, P2 = WATCH + "/proj/src/m.c", WATCH + "/proj/README"
+
+    s, _ = _pre(); s.put(A, "hello"); s.start()
+    add("accept_plain", s, ["write 7 " + hexs(A)])
+
+    s, _ = _pre(); s.put(P1, "int main;"); s.start(); s.exec(7, X + "/vim")
+    add("accept_project", s, ["write 7 " + hexs(P1)])
+
+    s, _ = _pre(); s.put(A, "hello"); s.start(); s.write(7, A)
+    add("drain_one", s, ["timeout"])
+
+    s, _ = _pre(); s.put(A, "hello"); s.put(B, "world!"); s.start(); s.write(7, A); s.write(7, B); s.write(8, A)
+    add("drain_dup", s, ["timeout"])
+
+    s, _ = _pre(); s.put(A, "new content"); s.put(R + "/k/store/inc/a.txt/v1000000.txt", "old"); s.put(R + "/k/store/inc/a.txt/v1000000-1.txt", "old1")
+    s.start(); s.write(7, A)
+    add("drain_collision", s, ["timeout"])
+
+    s, _ = _pre(); s.put(Hh, "line1\n"); s.start(); s.write(7, Hh)
+    add("drain_history_first", s, ["timeout"])
+
+    s, _ = _pre(); s.put(Hh, "line1\n"); s.start(); s.write(7, Hh); s.timeout(); s.append(Hh, "second line\n"); s.tick(1); s.write(7, Hh)
+    add("drain_history_offset", s, ["timeout"])
+
+    s, _ = _pre(); s.put(P1, "int main;"); s.put(P2, "readme"); s.start(); s.exec(7, X + "/vim"); s.write(7, P1); s.write(7, P2)
+    add("drain_project", s, ["timeout"])
+
+    s, _ = _pre(); s.put(P1, "int main;"); s.put(P2, "readme"); s.start(); s.exec(7, X + "/vim"); s.write(7, P1); s.write(7, P2); s.timeout()
+    s.tick(1); s.rm(P2); s.put(P1, "int main2;"); s.write(7, P1)
+    add("drain_project_second", s, ["timeout"])
+
+    s, _ = _pre(); s.put(A, "hello"); s.start(); s.write(7, A); s.rm(A)
+    add("drain_deleted", s, ["timeout"])
+
+    s, _ = _pre(); s.put(A, "hello"); s.start(); s.write(7, A); s.chmod(A, False)
+    add("drain_forbidden", s, ["timeout"])
+
+    s, _ = _pre(); s.put(A, "hello"); s.start(); s.write(7, A); s.rm(A); s.mkdirp(A)
+    add("drain_directory", s, ["timeout"])
+
+    s, cfg = _pre(); s.put(A, "hello"); s.start(); s.write(7, A)
+    import copy as _c
+    c2 = _c.deepcopy(cfg); c2.queue = R + "/k/var/queue2"; c2.journal = R + "/k/var/journal2"; c2.deb = 1
+    s.config(c2)
+    add("reload_new_queue", s, ["write 1 " + hexs(CFG_PATH)])
+
+    s, _ = _pre(base_cfg(deb=5)); s.put(A, "hello"); s.put(B, "world!"); s.start(); s.write(7, A); s.write(7, B); s.write(7, A); s.add("stop")
+    add("start_existing_queue", s, ["start %s %d %s" % (s.cfgid, CPL, hexs(CFG_PATH))])
+
+    s, _ = _pre(); s.start()
+    add("exec_editor_elf", s, ["exec 5 " + hexs(X + "/elf/vim")])
+
+    if tier != "quick":
+        s, _ = _pre(); s.putn(A, 70000, 3); s.start(); s.add("chunk 4096"); s.write(7, A)
+        add("drain_large", s, ["timeout"])
+        s, _ = _pre(); s.put(P1, "x"); s.mkdirp(R + "/k/projects/proj/v1000000"); s.start(); s.exec(7, X + "/vim"); s.write(7, P1)
+        add("snapshot_collision", s, ["timeout"])
+        s, _ = _pre(); s.put(A, "hello"); s.put(B, "world!"); s.start(); s.write(7, A); s.write(7, B)
+        add("drain_two", s, ["timeout"])
+    return out
+
+
+def scenario_script(sc, oracle_line=None, crash=False):
+    post = POST_CRASH if crash else POST_FAULT
+    lines = list(sc["pre"])
+    for op in sc["ops"]:
+        if oracle_line:
+            lines.append(oracle_line)
+        lines.append(op)
+    for l in post:
+        lines.append(sc["start"] if l.startswith("start @CFG@") else l)
+    return "\n".join(lines)
